@@ -364,3 +364,9 @@ for prop, K in (("unsigned", Unsigned), ("signed", Signed), ("bitvector", BitVec
             c = Case(f"{K2.__name__}.{path}", [view_shape(K2, path)], typed_view_spec(K))
             c.native = False
             con.cases.append(c)
+
+
+# C03 ("... slices and elements"): an assignment through a view addresses exactly the aliased bits, also at the third level of slicing;
+# C09: iterating a view of a run-time vector visits the same bits as iterating the constant
+contract("cohdl._core._type_qualifier:TypeQualifier.__getitem__", ("C03",))
+contract("cohdl._core._type_qualifier:TypeQualifier.__iter__", ("C09", "C03"))
